@@ -526,7 +526,13 @@ func init() {
 			ec.Threads, ec.Workers, ec.MaxPaths, ec.CanonicalBlock = true, 16, 5000000, true
 			ec.TimerBudget = 1
 			ec.Stubs = map[string]interceptFn{repoModule + "/internal/transfer.readAtWithPool": stubReadAtDirect}
-			js := []*Job{r, sn, sc, ob, so, el, ec}
+			tf := hj("C02.twofiles", "H_C02_twofiles", "two files, the second never arrives (End / clean end / silence): every blocking-point schedule plus two preemptions before lock operations")
+			tf.Threads, tf.Workers, tf.MaxPaths, tf.TimersNeverFire = true, 16, 5000000, true
+			tf.Preempt, tf.PreemptAt = 2, "lock"
+			tf.EagerCalls = []string{"writeFileDone", "hashFileChunk"}
+			tf.ReplayInstr = []SrcInsert{{File: "internal/transfer/multistream.go", Anchor: "if opts.FileDoneFn != nil {", Text: "vFinalizeYield()", All: true, Before: true}}
+			tf.CancelOnlyIdle, tf.BlockedOK = true, true // with a silent sender waiting is correct; the caller cancels once everybody waits
+			js := []*Job{r, sn, sc, ob, so, el, ec, tf}
 			if tier == "thorough" {
 				pr := hj("C02.receiver-preempt", "H_C02_receiver", "faulty scripted sender, schedules with one preemption of a goroutine at a select")
 				pr.Threads, pr.TimersNeverFire, pr.Workers, pr.MaxPaths = true, true, 16, 5000000
